@@ -40,6 +40,14 @@ CHECKS = {
             "reference-model monitor after every write on the real Python Registers, Rust LlamaState and CoreRuntime named API; icontract postcondition in the path of Registers.set; snapshot/blob round-trip and cross-exchange",
             "Held on the complete ordered-pair enumeration (14 names x 14 names x 10 x 10 boundary values) and on seeded sequences up to 64 writes with interleaved snapshot->apply round trips and Python<->Rust register-blob exchange; all 14 readable names compared after every write.",
             "Reference register file is the property statement; TEMPs and IMR out of scope.", "DESIGN.md 3/C08"),
+    "C09": ("exploration",
+            "round-trip monitor: rendered token stream -> assembler text -> real Assembler -> real decoder, compared on text/length/IL, second round fixed point",
+            "Held (modulo mechanism-keyed known findings) on one case per distinct text shape the disassembler can produce (quick: capped per shard; thorough: all shapes x 6 operand variants incl. IMEM-name collisions).",
+            "Equivalence judged by the disassembler's own text and the lifter's own IL; ignored bits need not survive.", "DESIGN.md 3/C09"),
+    "C10": ("exploration",
+            "wrapped pass-1/pass-2 hooks on the real Assembler + independent layout walk + per-statement metamorphic oracle + statelessness/determinism monitors over grammar-generated programs",
+            "Held (modulo listed findings) on seeded programs of 5-60 lines covering labels, sections, .ORG, all data directives and symbolic operands, and on all 2-statement combinations of construct classes: pass-1 sizes == pass-2 bytes, statement addresses and label values == independent walk, image == standalone statements, deterministic and history-free, page rule enforced.",
+            "Well-formedness is by construction of the generator; rejections of admitted constructs are keyed by construct.", "DESIGN.md 3/C10"),
     "C13": ("exploration",
             "reference-arithmetic monitor + cross-core comparison on every tick of the real TimerScheduler.advance and TimerContext::tick_timers; icontract postcondition on advance()",
             "Held on all period pairs 0..12 x 0..12 x enabled, sampled large periods, every-cycle and gap sequences with resets and snapshot/restore points: fire pattern, next targets strictly in the future, ISR bits, exactly-once on every-cycle sequences, Python == Rust.",
